@@ -172,6 +172,64 @@ def frag(spec):
     return {"text": pdbfmt.to_text(items), "truth": truth, "items": items, "meta": {"src": src, "nwin": len(used)}}
 
 
+def topostress(spec):
+    """Chain-topology stressors (C02): many chains, blank / repeated / recycled chain ids, numbering resets and
+    negative numbers, hidden chain ends (OXT inside a chain id group), single-residue chains, protein + nucleic
+    mixes, hetero residues and waters after the polymer inside the same chain id."""
+    rng = random.Random(spec["seed"])
+    p = spec.get("p", {})
+    scheme = p.get("scheme") or rng.choice(["distinct", "blank_ter", "repeated_oxt", "merged_oxt", "many", "single",
+                                            "mixed_na", "het_tail"])
+    ff = spec["ff"]
+    nch = {"many": rng.randint(20, 70), "single": rng.randint(2, 5)}.get(scheme, rng.randint(2, 5))
+    chains, kinds = [], []
+    for c in range(nch):
+        if scheme == "mixed_na" and c % 2 == 1 and NA_FFS.get(ff):
+            dna = NA_FFS[ff] == "both" and rng.random() < 0.5
+            seq = [rng.choice("ACGT" if dna else "ACGU") for _ in range(rng.randint(1, 4))]
+            chains.append(S.nucleic(seq, rng, dna=dna, first_phosphate=rng.random() < 0.5))
+            kinds.append("na")
+            continue
+        n = 1 if scheme == "single" else rng.randint(1, 2) if scheme == "many" else rng.randint(2, 5)
+        seq = [rng.choice(topo.AMINO) for _ in range(n)]
+        chains.append(S.peptide(seq, rng, hydrogens=rng.choice(["none", "none", "all"]), cterm_oxt=True))
+        kinds.append("aa")
+    S.scatter(chains, rng, gap=4.0)
+    entries = []
+    if scheme in ("distinct", "mixed_na", "single", "het_tail"):
+        for c, ch in enumerate(chains):
+            entries.append({"id": CHAIN_IDS[c], "start": rng.choice([1, 1, 50, -5]), "residues": ch})
+    elif scheme == "blank_ter":
+        for c, ch in enumerate(chains):
+            entries.append({"id": "", "start": 1, "residues": ch})
+    elif scheme == "repeated_oxt":
+        # id A, B, A, B ... : the second A group follows a TER; every group ends with OXT
+        for c, ch in enumerate(chains):
+            entries.append({"id": "AB"[c % 2], "start": 1 + 100 * c, "residues": ch})
+    elif scheme == "merged_oxt":
+        # one chain id, no TER between the pieces: chain ends are visible only through OXT
+        for c, ch in enumerate(chains):
+            entries.append({"id": "A", "start": 1 + 20 * c, "residues": ch, "no_ter": c < len(chains) - 1})
+    elif scheme == "many":
+        for c, ch in enumerate(chains):
+            entries.append({"id": CHAIN_IDS[c % len(CHAIN_IDS)], "start": 1 + 10 * (c // len(CHAIN_IDS)), "residues": ch})
+    if scheme == "het_tail":
+        for e in entries[:2]:
+            c0 = S.centroid(e["residues"])
+            e["residues"] = e["residues"] + [{"resn": "SO4", "kind": "het", "atoms": [("S", c0 + np.array([14.0, 0, 0])),
+                                                                                    ("O1", c0 + np.array([15.4, 0, 0]))]},
+                                             S.water(c0 + np.array([0, 14.0, 0]), rng, spread=1.0)]
+    items, truth = [], []
+    serial = 1
+    for e in entries:
+        it, tr = S.assemble([e], ter=not e.get("no_ter"), end=False)
+        items += it
+        truth += tr
+    items.append("END")
+    pdbfmt.renumber(items)
+    return {"text": pdbfmt.to_text(items), "truth": truth, "items": items, "meta": {"scheme": scheme, "nchains": nch}}
+
+
 ALL_NAMES = list(topo.AMINO) + sorted(topo.VARIANTS)
 
 
@@ -196,7 +254,7 @@ def lattice_cases(seed, ffs=FFS, per_structure=4, opts_fn=None, names=None, p=No
 
 
 def materialise(spec):
-    return {"synth": synth, "frag": frag}[spec["w"]](spec)
+    return {"synth": synth, "frag": frag, "topostress": topostress}[spec["w"]](spec)
 
 
 def standard_cases(tier, seed, n_quick, n_thorough, opts_fn=None, ffs=FFS, frag_share=0.3, p=None):
